@@ -78,7 +78,7 @@ def gen_chain(ctx: ShardCtx) -> dict:
         now = now.replace(hour=23, minute=59, second=rng.randrange(40, 60))
         if isinstance(params.get('start'), str) and params['start'][0].isdigit():
             params.pop('start')
-    return {'stream': rng.choice(['bbb', 'bbb', 'tears', 'dflt', 'vt5']), 'manifest': manifest, 'params': params,
+    return {'stream': rng.choice(['bbb', 'bbb', 'tears', 'dflt', 'vt5', 'syn']), 'manifest': manifest, 'params': params,
             'now': now.isoformat(), 'deltas': deltas}
 
 
@@ -217,6 +217,7 @@ def run_shard(ctx: ShardCtx) -> ShardResult:
         env.add_fixture_stream('tears')
         from dlv import synth
         synth.add_retracked_video_stream(env, res)     # video track id differs from the AdaptationSet id
+        synth.add_synthetic_streams(env, ctx, res)      # reference duration that is not a whole number of microseconds
         env.add_defaults_stream()      # saved per-stream defaults: manifest and patch endpoint must resolve the same options
         reach = Reach([('dashlive.server.requesthandler.manifest_requests', 'ServePatch.get'),
                        ('dashlive.mpeg.dash.representation', 'Representation.generateSegmentTimeline'),
